@@ -406,9 +406,10 @@ def fmt_regex(fmt):
 def other_job(args):
     s4, files, o, cwd = args
     env = core.base_env(tz=o["tzenv"][0], tmpdir=cwd)
-    und = core.run([s4, "--color", "never", "-t=+00:00"] + files, env, cwd=cwd, timeout=300)
-    dn = core.run([s4] + argv_of(o, "never") + ["--summary"] + files, env, cwd=cwd, timeout=300)
-    dc = core.run([s4] + argv_of(o, "always") + files, env, cwd=cwd, timeout=300)
+    jo = ["--journal-output", o["jout"]] if o.get("jout") else []
+    und = core.run([s4, "--color", "never", "-t=+00:00"] + jo + files, env, cwd=cwd, timeout=300)
+    dn = core.run([s4] + argv_of(o, "never") + jo + ["--summary"] + files, env, cwd=cwd, timeout=300)
+    dc = core.run([s4] + argv_of(o, "always") + jo + files, env, cwd=cwd, timeout=300)
     return und, dn, dc
 
 
@@ -433,11 +434,16 @@ def run_other_kinds(ctx, s4):
             gen.write(q, open(p, "rb").read())
             pool.append(("journal", q, None))
     jobs, meta = [], []
-    for cid in range(ctx.pick(60, 600)):
+    for cid in range(ctx.pick(120, 900)):
         o = s4_options(rng)
         # separators without a newline for these kinds (message boundaries are not known to the parser)
         o["sep"] = rng.choice([s for s in SEP_CHOICES if b"\n" not in s[1] and s[1] != b"\x00"])
         srcs = rng.sample(pool, rng.choice([1, 1, 2]))
+        if any(x[0] == "journal" for x in srcs):
+            # every rendering of a journal entry goes through the same eight print variants; export and verbose entries hold
+            # empty and indented lines
+            o["jout"] = rng.choice([None, "short", "short-precise", "short-iso", "short-iso-precise", "short-full", "short-monotonic", "short-unix",
+                                    "verbose", "export", "export", "cat"])
         files = [x[1] if rng.random() < 0.6 else os.path.relpath(x[1], d) for x in srcs]
         jobs.append((s4, files, o, d))
         meta.append((srcs, files, o))
@@ -446,9 +452,11 @@ def run_other_kinds(ctx, s4):
             ctx.inconc("watchdog")
             continue
         kinds = tuple(sorted({x[0] for x in srcs}))
-        ctx.evaluated(2, (o["file"], o["w"], o["dt"], o["fmt"], o["psep"], o["sep"][0], kinds))
+        ctx.evaluated(2, (o["file"], o["w"], o["dt"], o["fmt"], o["psep"], o["sep"][0], kinds, o.get("jout")))
         for k in kinds:
             ctx.count("kind:%s" % k)
+        if o.get("jout"):
+            ctx.count("journal rendering:%s" % o["jout"])
         info = {"argv_never": dn.argv, "env": dn.env, "cwd": d, "stderr_tail": dn.err[-200:]}
         if SGR.sub(b"", dc.out) != dn.out:
             ctx.violation("C13|colour-changes-bytes|%s" % "+".join(kinds), "--color always minus SGR sequences differs from --color never", info=info)
